@@ -35,6 +35,13 @@ def run(ctx):
     rule_constants(ctx)
     rule_wiring(ctx)
     rule_determinism(ctx)
+    # the id is the UUIDv5 of the RFC 8785 form of the contributing properties: every structural clause of the canonical
+    # form (C16) is a necessary condition of "the same id as every other implementation"
+    from . import C16
+    C16.rule_encoder_siblings(ctx, rule_id="C06.canonical-form")
+    C16.rule_key_order(ctx, rule_id="C06.canonical-form")
+    C16.rule_escapes(ctx, rule_id="C06.canonical-form")
+    C16.rule_number_constants(ctx, rule_id="C06.canonical-form")
 
 
 def rule_table(ctx):
@@ -115,6 +122,35 @@ def rule_constants(ctx):
     cur = next((s for s in fi.node.body if isinstance(s, ast.If)), None)
     ok_shape = cur is not None
     else_first = False
+    input_order = None
+    if cur is None:
+        # loop idiom: `for k in <constant sequence>: if k in hash_dict: return {k: hash_dict[k]}` keeps the order of the
+        # sequence; a loop over the *input* makes the caller's key order decide
+        for lp in [s for s in fi.node.body if isinstance(s, ast.For)]:
+            if not isinstance(lp.target, ast.Name):
+                continue
+            it = lp.iter
+            src = it
+            while isinstance(src, ast.Call) and (call_simple_name(src) in ("iter", "list", "tuple", "keys", "items")) :
+                src = src.args[0] if src.args else (src.func.value if isinstance(src.func, ast.Attribute) else src)
+            if isinstance(src, ast.Name) and src.id == p:
+                if any(isinstance(x, ast.Return) for s_ in lp.body for x in walk_no_nested(s_)):
+                    input_order = lp
+                continue
+            try:
+                seq = ev.eval(it, fi.scope)
+            except Exception:
+                seq = None
+            k = lp.target.id
+            tests = [s_ for s_ in lp.body if isinstance(s_, ast.If) and norm(s_.test) == "%s in %s" % (k, p)
+                     and s_.body and isinstance(s_.body[0], ast.Return) and norm(s_.body[0].value) in ("{%s: %s[%s]}" % (k, p, k),)]
+            if isinstance(seq, (list, tuple)) and all(isinstance(x, str) for x in seq) and tests:
+                order = list(seq)
+                ok_shape = True
+        rest = " ; ".join(norm(s_) for s_ in fi.node.body if not isinstance(s_, ast.For))
+        else_first = "next(iter(%s), None)" % p in rest
+        if not ok_shape and input_order is None:
+            raise AnalysisError("_choose_one_hash: neither the if-chain nor a loop over a constant preference list was recognised")
     while cur is not None:
         t = cur.test
         if isinstance(t, ast.Compare) and isinstance(t.ops[0], ast.In) and isinstance(t.left, ast.Constant) and norm(t.comparators[0]) == p:
@@ -133,10 +169,18 @@ def rule_constants(ctx):
             etxt = " ; ".join(norm(s) for s in cur.orelse)
             else_first = "next(iter(%s), None)" % p in etxt
             cur = None
-    run.check(ok_shape and order == spec["hash_priority"] and else_first, R, key(m.relpath, fi.qualname, "hash-priority"),
-              "the single hash that contributes to the id is not chosen in the specified order MD5, SHA-1, SHA-256, SHA-512, else "
-              "first", file=m.relpath, line=fi.node.lineno, function=fi.qualname, expected=spec["hash_priority"] + ["<first>"],
-              found=order + (["<first>"] if else_first else []))
+    if input_order is not None:
+        run.violation(R, key(m.relpath, fi.qualname, "hash-priority"),
+                      "the hash that contributes to the id is the first preferred one in the ORDER OF THE INPUT dictionary, not "
+                      "in the specified order MD5, SHA-1, SHA-256, SHA-512: the same file described with its hashes listed in "
+                      "another order gets another id", file=m.relpath, line=input_order.lineno, function=fi.qualname,
+                      expected=spec["hash_priority"] + ["<first>"], found=short(input_order, 160))
+    else:
+        run.check(ok_shape and order == spec["hash_priority"] and else_first, R, key(m.relpath, fi.qualname, "hash-priority"),
+                  "the single hash that contributes to the id is not chosen in the specified order MD5, SHA-1, SHA-256, SHA-512, "
+                  "else first", file=m.relpath, line=fi.node.lineno, function=fi.qualname,
+                  expected=spec["hash_priority"] + ["<first>"], found=order + (["<first>"] if else_first else []))
+    order = spec["hash_priority"]
     # the four literals are names HashesProperty produces for the 2.1 vocabulary
     vm = prog.module("stix2.v21.vocab")
     vb = vm.scope.lookup_local("HASHING_ALGORITHM")
